@@ -2,22 +2,27 @@ import PytezosModel.Michelson.Interp.Syntax
 import PytezosModel.Michelson.Interp.Typing
 import PytezosModel.Michelson.Collections
 /-! `Spec.eval` — big-step reference semantics of the modelled Michelson core over a plain list stack,
-written from the Michelson reference (not from the pytezos code).  `err` = stuck (ill-typed) or out of fuel.
+written from the Michelson reference (not from the pytezos code).  Outcomes (`Res`): a stack, a FAILWITH value, a
+runtime failure (`rtfail`: mutez overflow / underflow, shift by more than 256 bits), out of fuel (`oof`), `stuck`.
 Values carry their types; the rules check the type side conditions of the typing rules dynamically (EXEC,
-APPLY, CONS, COMPARE), so an ill-typed configuration is stuck rather than misbehaving.
+APPLY, CONS, COMPARE), so an ill-typed configuration is `stuck` rather than misbehaving — and a well-typed one never is
+(`Interp.progress`).
 
 `guard`: MAP over an *empty* list/map whose body changes the element type has, by the typing rule, the new
 element type (computed here with `Typing.typeInstr`).  pytezos cannot know that type (known finding), so the
-refinement theorem is stated for `guard := true`, where such a step is `err`. -/
+refinement theorem is stated for `guard := true`, where such a step is `offguard`. -/
 namespace Interp
 namespace Spec
 
+/-- a number as a value of the numeric type `t`; outside the range of `t` the instruction *fails at run time*
+(`rtfail`): for `mutez` that is the overflow / underflow failure of ADD, SUB, MUL, …; for `nat` it cannot happen on
+well-typed arguments (only for an environment reading like a negative level) -/
 def numOk (t : Ty) (v : Int) : Res Val :=
   match t with
   | .int | .timestamp => .ok (.num t v)
-  | .nat => if 0 ≤ v then .ok (.num .nat v) else .err
-  | .mutez => if 0 ≤ v ∧ v < 2 ^ 63 then .ok (.num .mutez v) else .err   -- mutez overflow is a runtime failure
-  | _ => .err
+  | .nat => if 0 ≤ v then .ok (.num .nat v) else .rtfail
+  | .mutez => if 0 ≤ v ∧ v < 2 ^ 63 then .ok (.num .mutez v) else .rtfail
+  | _ => .stuck
 
 def addTy : Ty → Ty → Option Ty
   | .nat, .nat => some .nat
@@ -91,41 +96,42 @@ def edivV : Val → Val → Res Val
     | some (qt, rt) =>
       if y = 0 then .ok (.none (.pair qt rt))
       else (numOk qt (x / y)).bind fun q => (numOk rt (x % y)).bind fun r => .ok (.some (.pair q r))
-    | none => .err
-  | _, _ => .err
+    | none => .stuck
+  | _, _ => .stuck
 
-/-- LSL / LSR: shifts of naturals by at most 256 bits (a larger shift is a runtime failure) -/
+/-- LSL / LSR: shifts of naturals by at most 256 bits (a larger shift is a runtime failure; a negative shift count
+is not a `nat`: stuck) -/
 def lslV : Val → Val → Res Val
-  | .num .nat x, .num .nat n => if 0 ≤ n ∧ n ≤ 256 then numOk .nat (x * 2 ^ n.toNat) else .err
-  | _, _ => .err
+  | .num .nat x, .num .nat n => if n < 0 then .stuck else if n ≤ 256 then numOk .nat (x * 2 ^ n.toNat) else .rtfail
+  | _, _ => .stuck
 
 def lsrV : Val → Val → Res Val
-  | .num .nat x, .num .nat n => if 0 ≤ n ∧ n ≤ 256 then numOk .nat (x / 2 ^ n.toNat) else .err
-  | _, _ => .err
+  | .num .nat x, .num .nat n => if n < 0 then .stuck else if n ≤ 256 then numOk .nat (x / 2 ^ n.toNat) else .rtfail
+  | _, _ => .stuck
 
 def subMutezV : Val → Val → Res Val
   | .num .mutez x, .num .mutez y =>
     if x < y then .ok (.none .mutez) else (numOk .mutez (x - y)).bind fun r => .ok (.some r)
-  | _, _ => .err
+  | _, _ => .stuck
 
 /-- AND / OR / XOR: booleans, and bitwise on naturals (a `nat` holds a natural number: nothing is prescribed for
 other contents); AND also takes an `int` on either side, read in two's complement -/
 def andV : Val → Val → Res Val
   | .bool x, .bool y => .ok (.bool (x && y))
-  | .num .nat x, .num .nat y => if 0 ≤ x ∧ 0 ≤ y then .ok (.num .nat (Int.ofNat (x.toNat &&& y.toNat))) else .err
-  | .num .int x, .num .nat y => if 0 ≤ y then .ok (.num .nat (Int.ofNat (andIntNat x y.toNat))) else .err
-  | .num .nat x, .num .int y => if 0 ≤ x then .ok (.num .nat (Int.ofNat (andIntNat y x.toNat))) else .err
-  | _, _ => .err
+  | .num .nat x, .num .nat y => if 0 ≤ x ∧ 0 ≤ y then .ok (.num .nat (Int.ofNat (x.toNat &&& y.toNat))) else .stuck
+  | .num .int x, .num .nat y => if 0 ≤ y then .ok (.num .nat (Int.ofNat (andIntNat x y.toNat))) else .stuck
+  | .num .nat x, .num .int y => if 0 ≤ x then .ok (.num .nat (Int.ofNat (andIntNat y x.toNat))) else .stuck
+  | _, _ => .stuck
 
 def orV : Val → Val → Res Val
   | .bool x, .bool y => .ok (.bool (x || y))
-  | .num .nat x, .num .nat y => if 0 ≤ x ∧ 0 ≤ y then .ok (.num .nat (Int.ofNat (x.toNat ||| y.toNat))) else .err
-  | _, _ => .err
+  | .num .nat x, .num .nat y => if 0 ≤ x ∧ 0 ≤ y then .ok (.num .nat (Int.ofNat (x.toNat ||| y.toNat))) else .stuck
+  | _, _ => .stuck
 
 def xorV : Val → Val → Res Val
   | .bool x, .bool y => .ok (.bool (xor x y))
-  | .num .nat x, .num .nat y => if 0 ≤ x ∧ 0 ≤ y then .ok (.num .nat (Int.ofNat (x.toNat ^^^ y.toNat))) else .err
-  | _, _ => .err
+  | .num .nat x, .num .nat y => if 0 ≤ x ∧ 0 ≤ y then .ok (.num .nat (Int.ofNat (x.toNat ^^^ y.toNat))) else .stuck
+  | _, _ => .stuck
 
 /-! Sets and maps: strictly sorted lists (of elements, of `Pair key value` bindings) maintained by ordered search,
 insertion and deletion (`Spec.Coll`, the reference dictionary of C14) under the order `Typing.keyLt` of the simple
@@ -141,9 +147,9 @@ def unkvs (m : List (Val × Val)) : List Val := m.map fun e => .pair e.1 e.2
 open Typing _root_.Spec.Coll in
 /-- MEM -/
 def memV : Val → Val → Res Val
-  | x, .set t xs => if goodSet t xs && isKey t x then .ok (.bool (memKey keyLt x xs)) else .err
-  | x, .map k _ items => if goodMap k items && isKey k x then .ok (.bool (findKV keyLt x (kvs items)).isSome) else .err
-  | _, _ => .err
+  | x, .set t xs => if goodSet t xs && isKey t x then .ok (.bool (memKey keyLt x xs)) else .stuck
+  | x, .map k _ items => if goodMap k items && isKey k x then .ok (.bool (findKV keyLt x (kvs items)).isSome) else .stuck
+  | _, _ => .stuck
 
 open Typing _root_.Spec.Coll in
 /-- GET on a map -/
@@ -153,19 +159,19 @@ def getV : Val → Val → Res Val
       .ok (match findKV keyLt x (kvs items) with
         | some y => .some y
         | none => .none v)
-    else .err
-  | _, _ => .err
+    else .stuck
+  | _, _ => .stuck
 
 open Typing _root_.Spec.Coll in
 /-- UPDATE: `True` / `False` adds / removes an element of a set; `Some v` / `None` binds / unbinds a key of a map -/
 def updateV : Val → Val → Val → Res Val
   | x, .bool b, .set t xs =>
-    if goodSet t xs && isKey t x then .ok (.set t (if b then insertKey keyLt x xs else eraseKey keyLt x xs)) else .err
+    if goodSet t xs && isKey t x then .ok (.set t (if b then insertKey keyLt x xs else eraseKey keyLt x xs)) else .stuck
   | x, .none v', .map k v items =>
-    if goodMap k items && isKey k x && v' == v then .ok (.map k v (unkvs (eraseKV keyLt x (kvs items)))) else .err
+    if goodMap k items && isKey k x && v' == v then .ok (.map k v (unkvs (eraseKV keyLt x (kvs items)))) else .stuck
   | x, .some y, .map k v items =>
-    if goodMap k items && isKey k x && typeOf y == v then .ok (.map k v (unkvs (insertKV keyLt x y (kvs items)))) else .err
-  | _, _, _ => .err
+    if goodMap k items && isKey k x && typeOf y == v then .ok (.map k v (unkvs (insertKV keyLt x y (kvs items)))) else .stuck
+  | _, _, _ => .stuck
 
 /-- GET_AND_UPDATE: the previous binding and the updated map -/
 def getAndUpdateV (x o m : Val) : Res (Val × Val) :=
@@ -208,30 +214,30 @@ def stepMore (env : Env) : Instr → List Val → Res (List Val)
   | .KECCAK, .bytes b :: st => .ok (.bytes (env.hashes.keccak b) :: st)
   | .SHA3, .bytes b :: st => .ok (.bytes (env.hashes.sha3 b) :: st)
   -- `CAST t` / `RENAME`: identity on a top element of type `t` / on any top element (annotations are not modelled)
-  | .CAST t, x :: st => if typeOf x = t then .ok (x :: st) else .err
+  | .CAST t, x :: st => if typeOf x = t then .ok (x :: st) else .stuck
   | .RENAME, x :: st => .ok (x :: st)
-  | _, _ => .err
+  | _, _ => .stuck
 
 /-- the rules for instructions without sub-programs -/
 def step (env : Env) : Instr → List Val → Res (List Val)
   | .DROP, _ :: st => .ok st
-  | .DROPN n, st => if n ≤ st.length then .ok (st.drop n) else .err
+  | .DROPN n, st => if n ≤ st.length then .ok (st.drop n) else .stuck
   | .DUP, x :: st => .ok (x :: x :: st)
   | .DUPN n, st =>
-    if n = 0 then .err else
+    if n = 0 then .stuck else
     match st[n - 1]? with
     | some x => .ok (x :: st)
-    | none => .err
+    | none => .stuck
   | .SWAP, x :: y :: st => .ok (y :: x :: st)
   | .DIG n, st =>
     match st[n]? with
     | some x => .ok (x :: (st.take n ++ st.drop (n + 1)))
-    | none => .err
-  | .DUG n, x :: st => if n ≤ st.length then .ok (st.take n ++ x :: st.drop n) else .err
+    | none => .stuck
+  | .DUG n, x :: st => if n ≤ st.length then .ok (st.take n ++ x :: st.drop n) else .stuck
   | .PUSH _ v, st => .ok (v :: st)
   | .LAMBDA a b body, st => .ok (.lam a b body :: st)
   | .APPLY, x :: .lam (.pair ta tb) b body :: st =>
-    if typeOf x = ta then .ok (.lam tb b (.seq [.PUSH ta x, .PAIR, body]) :: st) else .err
+    if typeOf x = ta then .ok (.lam tb b (.seq [.PUSH ta x, .PAIR, body]) :: st) else .stuck
   | .FAILWITH, x :: _ => .failed x
   | .UNIT, st => .ok (.unit :: st)
   | .PAIR, x :: y :: st => .ok (.pair x y :: st)
@@ -239,19 +245,19 @@ def step (env : Env) : Instr → List Val → Res (List Val)
   | .PAIRN n, st =>
     match pairN n st with
     | some (r, st') => .ok (r :: st')
-    | none => .err
+    | none => .stuck
   | .UNPAIRN n, v :: st =>
     match unpairN n v with
     | some xs => .ok (xs ++ st)
-    | none => .err
+    | none => .stuck
   | .GETN n, v :: st =>
     match getN n v with
     | some r => .ok (r :: st)
-    | none => .err
+    | none => .stuck
   | .UPDATEN n, e :: v :: st =>
     match updateN n e v with
     | some r => .ok (r :: st)
-    | none => .err
+    | none => .stuck
   | .CAR, .pair x _ :: st => .ok (x :: st)
   | .CDR, .pair _ y :: st => .ok (y :: st)
   | .SOME, x :: st => .ok (.some x :: st)
@@ -259,9 +265,9 @@ def step (env : Env) : Instr → List Val → Res (List Val)
   | .LEFT t, x :: st => .ok (.left x t :: st)
   | .RIGHT t, x :: st => .ok (.right t x :: st)
   | .NIL t, st => .ok (.list t [] :: st)
-  | .CONS, x :: .list t xs :: st => if typeOf x = t then .ok (.list t (x :: xs) :: st) else .err
+  | .CONS, x :: .list t xs :: st => if typeOf x = t then .ok (.list t (x :: xs) :: st) else .stuck
   | .EMPTY_MAP k v, st => .ok (.map k v [] :: st)
-  | .EMPTY_SET t, st => if Typing.simpleComparable t then .ok (.set t [] :: st) else .err   -- elements must be comparable
+  | .EMPTY_SET t, st => if Typing.simpleComparable t then .ok (.set t [] :: st) else .stuck   -- elements must be comparable
   | .SIZE, .set _ xs :: st => .ok (.num .nat xs.length :: st)
   | .MEM, a :: b :: st => (memV a b).bind fun r => .ok (r :: st)
   | .GET, a :: b :: st => (getV a b).bind fun r => .ok (r :: st)
@@ -274,15 +280,15 @@ def step (env : Env) : Instr → List Val → Res (List Val)
   | .ADD, .num ta x :: .num tb y :: st =>
     match addTy ta tb with
     | some t => (numOk t (x + y)).bind fun r => .ok (r :: st)
-    | none => .err
+    | none => .stuck
   | .SUB, .num ta x :: .num tb y :: st =>
     match subTy ta tb with
     | some t => (numOk t (x - y)).bind fun r => .ok (r :: st)
-    | none => .err
+    | none => .stuck
   | .MUL, .num ta x :: .num tb y :: st =>
     match mulTy ta tb with
     | some t => (numOk t (x * y)).bind fun r => .ok (r :: st)
-    | none => .err
+    | none => .stuck
   | .EDIV, a :: b :: st => (edivV a b).bind fun r => .ok (r :: st)
   | .LSL, a :: b :: st => (lslV a b).bind fun r => .ok (r :: st)
   | .LSR, a :: b :: st => (lsrV a b).bind fun r => .ok (r :: st)
@@ -296,8 +302,8 @@ def step (env : Env) : Instr → List Val → Res (List Val)
     if typeOf a = typeOf b then
       match compare a b with
       | some c => .ok (.num .int c :: st)
-      | none => .err
-    else .err
+      | none => .stuck
+    else .stuck
   | .EQ, .num .int x :: st => .ok (.bool (decide (x = 0)) :: st)
   | .NEQ, .num .int x :: st => .ok (.bool (decide (x ≠ 0)) :: st)
   | .LT, .num .int x :: st => .ok (.bool (decide (x < 0)) :: st)
@@ -315,11 +321,11 @@ def step (env : Env) : Instr → List Val → Res (List Val)
   | .CONCAT, .list .string xs :: st =>
     match strs xs with
     | some s => .ok (.str s :: st)
-    | none => .err
+    | none => .stuck
   | .CONCAT, .list .bytes xs :: st =>
     match bytess xs with
     | some s => .ok (.bytes s :: st)
-    | none => .err
+    | none => .stuck
   | .SLICE, .num .nat off :: .num .nat len :: .str x :: st =>
     .ok ((match slice off.toNat len.toNat x with | some r => Val.some (.str r) | none => .none .string) :: st)
   | .SLICE, .num .nat off :: .num .nat len :: .bytes x :: st =>
@@ -345,29 +351,29 @@ def listOf (guard : Bool) (body : Instr) (t : Ty) (st : List Val) (ys : List Val
   match ys with
   | [] =>
     match mapOutTy body t st with
-    | some t' => if guard && t' != t then .err else .ok (.list t' [])
-    | none => .err
-  | y :: rest => if rest.all (fun z => typeOf z = typeOf y) then .ok (.list (typeOf y) ys) else .err
+    | some t' => if guard && t' != t then .offguard else .ok (.list t' [])
+    | none => .stuck
+  | y :: rest => if rest.all (fun z => typeOf z = typeOf y) then .ok (.list (typeOf y) ys) else .stuck
 
 def mapOf (guard : Bool) (body : Instr) (k v : Ty) (st : List Val) (ys : List Val) : Res Val :=
   match ys with
   | [] =>
     match mapOutTy body (.pair k v) st with
-    | some v' => if guard && v' != v then .err else .ok (.map k v' [])
-    | none => .err
+    | some v' => if guard && v' != v then .offguard else .ok (.map k v' [])
+    | none => .stuck
   | .pair a b :: rest =>
-    if rest.all (fun z => typeOf z = .pair (typeOf a) (typeOf b)) then .ok (.map (typeOf a) (typeOf b) ys) else .err
-  | _ => .err
+    if rest.all (fun z => typeOf z = .pair (typeOf a) (typeOf b)) then .ok (.map (typeOf a) (typeOf b) ys) else .stuck
+  | _ => .stuck
 
 mutual
   def eval (guard : Bool) (env : Env) : (fuel : Nat) → Instr → List Val → Res (List Val)
-    | 0, _, _ => .err
+    | 0, _, _ => .oof
     | fuel + 1, i, st =>
       match i, st with
       | .seq is, st => evalSeq guard env fuel is st
       | .DIP body, x :: st => (eval guard env fuel body st).bind fun st' => .ok (x :: st')
       | .DIPN n body, st =>
-        if n ≤ st.length then (eval guard env fuel body (st.drop n)).bind fun st' => .ok (st.take n ++ st') else .err
+        if n ≤ st.length then (eval guard env fuel body (st.drop n)).bind fun st' => .ok (st.take n ++ st') else .stuck
       | .IF bt bf, .bool b :: st => eval guard env fuel (if b then bt else bf) st
       | .IF_NONE bn _, .none _ :: st => eval guard env fuel bn st
       | .IF_NONE _ bs, .some v :: st => eval guard env fuel bs (v :: st)
@@ -393,22 +399,22 @@ mutual
         if typeOf arg = a then
           (eval guard env fuel body [arg]).bind fun r =>
             match r with
-            | [y] => if typeOf y = b then .ok (y :: st) else .err
-            | _ => .err
-        else .err
+            | [y] => if typeOf y = b then .ok (y :: st) else .stuck
+            | _ => .stuck
+        else .stuck
       | i, st => step env i st
   def evalSeq (guard : Bool) (env : Env) : (fuel : Nat) → List Instr → List Val → Res (List Val)
     | _, [], st => .ok st
-    | 0, _ :: _, _ => .err
+    | 0, _ :: _, _ => .oof
     | fuel + 1, i :: is, st => (eval guard env fuel i st).bind fun st' => evalSeq guard env fuel is st'
   def evalIter (guard : Bool) (env : Env) : (fuel : Nat) → Instr → List Val → List Val → Res (List Val)
     | _, _, [], st => .ok st
-    | 0, _, _ :: _, _ => .err
+    | 0, _, _ :: _, _ => .oof
     | fuel + 1, body, x :: xs, st => (eval guard env fuel body (x :: st)).bind fun st' => evalIter guard env fuel body xs st'
   /-- the body maps each element (for maps: each `Pair key value` binding, the key being kept) -/
   def evalMap (guard : Bool) (env : Env) : (fuel : Nat) → Instr → (isMap : Bool) → List Val → List Val → Res (List Val × List Val)
     | _, _, _, [], st => .ok ([], st)
-    | 0, _, _, _ :: _, _ => .err
+    | 0, _, _, _ :: _, _ => .oof
     | fuel + 1, body, isMap, x :: xs, st =>
       (eval guard env fuel body (x :: st)).bind fun r =>
         match r with
@@ -416,9 +422,9 @@ mutual
           (match isMap, x with
             | false, _ => Res.ok y
             | true, .pair k _ => Res.ok (Val.pair k y)
-            | true, _ => Res.err).bind fun item =>
+            | true, _ => Res.stuck).bind fun item =>
           (evalMap guard env fuel body isMap xs st').bind fun (ys, st'') => .ok (item :: ys, st'')
-        | [] => .err
+        | [] => .stuck
 end
 
 end Spec
